@@ -79,7 +79,9 @@ def main():
                     rt.append({"replay": os.path.basename(pth), "rc_changed_tree": r1, "rc_unchanged_tree": r0,
                                "tail": (o1[-300:] if r1 != 1 else "") + (o0[-300:] if r0 != 0 else "")})
                 res["checks"][c]["replay_test"] = rt
-        res["caught_by"] = sorted(c for c, v in res["checks"].items() if v["rc"] == 1)
+        # caught = the check printed a VIOLATION line and exited 1 (a crash of the harness is reported separately, never as a catch)
+        res["caught_by"] = sorted(c for c, v in res["checks"].items() if v["rc"] == 1 and v["violations"] > 0)
+        res["harness_errors"] = sorted(c for c, v in res["checks"].items() if v["rc"] not in (0, 1, 2) or (v["rc"] == 1 and v["violations"] == 0))
         print(json.dumps(res))
     finally:
         sh(["git", "-C", "/repo", "worktree", "remove", "--force", wt])
